@@ -23,9 +23,9 @@ type Op struct {
 	Name  string    `json:"op"` // push | pushbad | pushmulti | reverse | swap | clone
 	Parts []model.G `json:"parts,omitempty"`
 	// swap: layout/srid of the other value; pushmulti: index of the bad part (-1 none)
-	Layout int `json:"layout,omitempty"`
-	SRID   int `json:"srid,omitempty"`
-	Bad    int `json:"bad,omitempty"`
+	Layout int  `json:"layout,omitempty"`
+	SRID   int  `json:"srid,omitempty"`
+	Bad    int  `json:"bad,omitempty"`
 	OnOrig bool `json:"onOrig,omitempty"` // clone: continue on the original instead of the clone
 	// Target selects (modulo the number of live values) which live value the
 	// operation applies to: clones and swap partners stay alive and keep being
@@ -283,6 +283,32 @@ func invariant(step string, kind string, recv geom.T, st *state, fixed bool) err
 		if recv.Layout() != want.ReportedLayout() {
 			return fmt.Errorf("%s: collection Layout() = %v, want %v", step, recv.Layout(), want.ReportedLayout())
 		}
+		// the layout check that guards Push (and SetLayout), asked directly: a layout
+		// fits iff it is NoLayout or every member has it; a new collection of the same
+		// members takes a fixed layout exactly then
+		gc := recv.(*geom.GeometryCollection)
+		for _, l := range []geom.Layout{geom.NoLayout, geom.XY, geom.XYZ, geom.XYM, geom.XYZM, geom.Layout(5)} {
+			fits := true
+			for i := range st.parts {
+				if l != geom.NoLayout && st.parts[i].ReportedLayout() != l {
+					fits = false
+				}
+			}
+			err := gc.CheckLayout(l)
+			var lm geom.ErrLayoutMismatch
+			if fits != (err == nil) || (err != nil && !errors.As(err, &lm)) {
+				return fmt.Errorf("%s: CheckLayout(%v) = %v on members %v", step, l, err, layoutsOf(st.parts))
+			}
+			g2 := geom.NewGeometryCollection()
+			if err := g2.Push(gc.Geoms()...); err != nil {
+				return fmt.Errorf("%s: Push of the members into a new collection: %v", step, err)
+			}
+			if err := g2.SetLayout(l); fits != (err == nil) {
+				return fmt.Errorf("%s: SetLayout(%v) = %v on members %v", step, l, err, layoutsOf(st.parts))
+			} else if err == nil && l != geom.NoLayout && g2.Layout() != l {
+				return fmt.Errorf("%s: after SetLayout(%v) the collection reports %v", step, l, g2.Layout())
+			}
+		}
 		return nil
 	}
 	if recv.Layout() != st.layout || recv.SRID() != st.srid {
@@ -303,6 +329,14 @@ func invariant(step string, kind string, recv geom.T, st *state, fixed bool) err
 		return fmt.Errorf("%s: flat representation is not the concatenation of the parts: %s", step, d)
 	}
 	return nil
+}
+
+func layoutsOf(parts []model.G) []geom.Layout {
+	out := make([]geom.Layout, len(parts))
+	for i := range parts {
+		out[i] = parts[i].ReportedLayout()
+	}
+	return out
 }
 
 type snapshot struct {
